@@ -55,6 +55,8 @@ func checkC03(p *load.Program, r *kit.Report) {
 	checkVerifyHeader(p, r)
 	checkHeadersVerify(p, r)
 	checkReadyWriters(p, r, "WRITERS")
+	r.Rule("SPLIT-TABLE-FROZEN", "no field of a Split held by the repository is written after NewRepository built the split table (writes on local copies excepted)", 1)
+	checkSplitTableFrozen(p, r, "SPLIT-TABLE-FROZEN")
 }
 
 func checkSplitTable(p *load.Program, r *kit.Report) {
